@@ -94,6 +94,45 @@ EXPS += [
                     }
                 }"""),
 ]
+EXPS += [
+  ("S1", "break", "feature_serde/mod.rs", "visit_str parses the empty string instead of v",
+   "match build_operator_tree(v) {", 'match build_operator_tree("") {'),
+  ("S2", "break", "feature_serde/mod.rs", "visit_str turns an error into the tree of the input's error-free fallback (Ok on Err)",
+   "Err(error) => Err(E::custom(error)),", "Err(error) => build_operator_tree(\"\").map_err(|_| E::custom(error)),"),
+  ("S3", "harmless", "feature_serde/mod.rs", "visit_str: arms swapped",
+   """            Ok(node) => Ok(node),
+            Err(error) => Err(E::custom(error)),""",
+   """            Err(error) => Err(E::custom(error)),
+            Ok(node) => Ok(node),"""),
+  ("I1", "break", "tree/iter.rs", "NodeIter::next does not descend (children of the yielded node not pushed)",
+   """            if let Some(result) = result {
+                self.stack.push(result.children.iter());
+                return Some(result);
+            }
+        }
+    }
+}
+
+/// An iterator that mutably""",
+   """            if let Some(result) = result {
+                return Some(result);
+            }
+        }
+    }
+}
+
+/// An iterator that mutably"""),
+  ("I2", "break", "tree/iter.rs", "NodeIter::new starts with an empty stack",
+   """        NodeIter {
+            stack: vec![node.children.iter()],""",
+   """        NodeIter {
+            stack: vec![],"""),
+  ("I3", "harmless", "tree/iter.rs", "NodeIter::new uses the accessor children()",
+   """        NodeIter {
+            stack: vec![node.children.iter()],""",
+   """        NodeIter {
+            stack: vec![node.children().iter()],"""),
+]
 def reset():
     shutil.rmtree(SRC, ignore_errors=True); shutil.copytree(REF, SRC)
 def tr(src):
@@ -116,14 +155,14 @@ for (eid, kind, f, desc, old, new) in EXPS:
         if b.returncode == 0: res = "BUILDS"
         else:
             import re
-            errs = [l for l in out.splitlines() if "error:" in l and "AgreeFnSweep.lean:" in l]
-            lines = sorted({int(re.search(r"\.lean:(\d+):", l).group(1)) for l in errs})
-            src = open(VERIF + "/lean/EvalexprVerif/Proofs/AgreeFnSweep.lean").read().splitlines()
+            errs = [l for l in out.splitlines() if "error:" in l and ".lean:" in l]
             names = []
-            for ln in lines:
-                i = ln - 1
+            for l in errs:
+                m = re.search(r"(EvalexprVerif/\S+\.lean):(\d+):", l)
+                src = open(VERIF + "/lean/" + m.group(1)).read().splitlines()
+                i = min(int(m.group(2)), len(src)) - 1
                 while i >= 0 and not src[i].startswith("theorem"): i -= 1
-                nm = src[i].split()[1] if i >= 0 else "?"
+                nm = (src[i].split()[1] if i >= 0 else "?") + " [" + os.path.basename(m.group(1)) + "]"
                 if nm not in names: names.append(nm)
             res = "BROKEN: " + ", ".join(names)
     ok = (kind == "break") != (res == "BUILDS")
